@@ -13,10 +13,17 @@ names containing keyword spellings in any case (isTrue, False_alarm, NOT, xUy), 
 operands) and TALL formulas (spines of height 100..270, below what the library's own recursive printer and the
 harness's recursive readers can follow).
 CTL's compact notation ("AX p", "A(p U q)") is additionally given to the CTL parser and compared with the
-model's parse only: the property is about CTL* notation, both sides reject / misparse most of it."""
+model's parse only: the property is about CTL* notation, both sides reject / misparse most of it.
+Second audit (c09_extra.py): VERY WIDE or/and (151..1200 operands: around 255 = CPython's historic limit on call arguments, around
+the powers of two, random) in the ordinary pipeline; spines of height 6..99 in the tall stream; VERY TALL spines of height
+271..1200, handled iteratively: a formula whose str() raises RecursionError is outside the property, any text that IS returned
+must parse back and be the model's text; EDIT: objects that were already printed / hashed / compared are changed through
+wrap_subformulas or through the list returned by subformulas() and printed again - the new text must be the text of the tree the
+object has now."""
 from common import *
 from mccheck import detuple
 import parsegen as PG
+import c09_extra as X
 LEVEL = 'proof'
 
 PARSED_BY = {'PL': ('PL',), 'LTL': ('LTL',), 'CTLS': ('CTLS',), 'CTL': ('CTL', 'CTLS')}
@@ -158,6 +165,16 @@ def build_items(R):
         hs = [101, 126, 130, 160, 200, 230, 251, 260, 270] + [rng.randint(100, 270) for _ in range(12 if R.thorough else 3)]
         for h in hs:
             items.append(('tall', logic, PG.spine(rng, logic, PG.ATOMS if rng.random() < 0.5 else pools[logic], h)))
+    # 7. (second audit) very wide: 151..1200 operands, around 255 (CPython's historic limit on call arguments) and the powers of two
+    very_wide = []
+    for logic in PG.LANGS:
+        for f in X.very_wide_formulas(rng, logic, list(PG.ATOMS) + pools[logic][:20], R.thorough):
+            very_wide.append(('wide', logic, f))
+    # 8. (second audit) the heights between the enumeration and the tall stream
+    for logic in PG.LANGS:
+        for h in [rng.randint(6, 19), rng.randint(20, 49), rng.randint(50, 99), rng.randint(20, 99)] + [rng.randint(6, 99) for _ in range(12 if R.thorough else 0)]:
+            items.append(('tall', logic, PG.spine(rng, logic, PG.ATOMS if rng.random() < 0.5 else pools[logic], h)))
+    items = X.spread(items, very_wide)
     seen = set()
     out = []
     for st, logic, f in items:
@@ -254,6 +271,17 @@ def run(R):
               'each depth-1 tree, and random formulas of depth 2-4 over the pool. WIDE: or/and with every arity 4..12, random arities 13..40, 64 and 150, '
               'at the root and inside every kind of operator, also wide inside wide. TALL: spines of height 101,126,130,160,200,230,251,260,270 and random '
               'heights in 100..270 per logic (unary operators, binary operators and n-ary connectives with the spine on either side; CTL: quantifier+temporal pairs). '
+              'VERY WIDE (same pipeline): or/and with 128, 129, 300, 512, 1000 operands, 255 / 256 / 257 operands with both connectives (CPython <= 3.6 refused '
+              'calls with more than 255 arguments) also as an operand of a wide node of the other kind, and random arities 151..1200; at the root and inside the operators. '
+              'Spines of random height in 6..19, 20..49, 50..99 per logic in the TALL stream. '
+              'VERY TALL (iterative readers, preorder token lists): spines of height 271,280,288,292,294,296,298,300,305,320,350,400,520,700,1000 and random heights in '
+              '271..340 and 341..1200 per logic; str() under a 2 s timer; RecursionError / no answer = not printed, nothing claimed (counted in very_tall_271_1200); a returned text '
+              'must be the model print, parse back (implementation and model) to the tree, and be stable. '
+              'EDIT (450 cases per logic in quick): random formula of depth 1-4, a random operator node at any depth; the root is first printed / hashed / compared with a fresh copy / '
+              'repr-ed (or only the node or every node on the path is printed, or nothing), optionally a second formula not(node) is built and printed; then the node is edited by '
+              'wrap_subformulas(list of old operands / new formulas / python bools, Formula) or in place through subformulas(): item and slice assignment, append, insert, pop, reverse '
+              '(arity kept legal, edits that leave the tree unchanged discarded); after the edit tree_of(root) is read again and str(root) must be the model print of that tree, parse back '
+              'to it, differ from the text before; the same for the second holder. '
               'Compared per formula: tree and node languages of Parser()(str(f)) (CTL: str of the CTL* object of the same tree and of cast_to(CTLS), '
               'read by CTL.Parser and CTLS.Parser), str(f) vs model print, model parse of that text vs the tree; over all of them: one printed form '
               '-> one tree, per logic and notation (incl. CTL compact). non-trivial = formula with >= 2 operators, distinct by (logic, tree)')
@@ -306,7 +334,7 @@ def run(R):
         ops_hist[min(no, 12)] = ops_hist.get(min(no, 12), 0) + 1
         if st in ('wide', 'tall') or st.startswith('ident'):
             ar, hh = shape_stats(f)
-            ak = ar if ar < 13 else (40 if ar <= 40 else 41)
+            ak = ar if ar < 13 else (40 if ar <= 40 else 41 if ar <= 150 else 151 if ar <= 254 else 255 if ar <= 257 else 258)
             ar_hist[ak] = ar_hist.get(ak, 0) + 1
             hk = '%d-%d' % (hh // 50 * 50, hh // 50 * 50 + 49) if hh >= 50 else '<50'
             h_hist[hk] = h_hist.get(hk, 0) + 1
@@ -321,13 +349,16 @@ def run(R):
     for what, data, soft in pending_hard + pending_soft:
         R.violation(what, data, no_input=soft)
     R.count('violating_formulas', reported)
+    # (second audit) formulas taller than the recursive readers can follow, and objects edited between two prints
+    X.run_tall(R, pools)
+    X.run_edit(R, pools)
     R.cov['distribution'] = dist
     R.cov['operators_per_formula'] = {('%d' % k if k < 12 else '12+'): v for k, v in sorted(ops_hist.items())}
     R.cov['shapes_depth2'] = nshapes
     R.cov['identifier_pool_sizes'] = {L: len(v) for L, v in pools.items()}
     R.cov['identifier_pool_examples'] = {L: v[-6:] for L, v in pools.items()}
     R.cov['foreign_keywords_used_as_atoms'] = {L: [a for a in v if a in PG.KEYWORDS] for L, v in pools.items()}
-    R.cov['max_arity_histogram'] = {('%d' % k if k < 13 else '13-40' if k <= 40 else '41+'): v for k, v in sorted(ar_hist.items())}
+    R.cov['max_arity_histogram'] = {('%d' % k if k < 13 else {40: '13-40', 41: '41-150', 151: '151-254', 255: '255-257', 258: '258+'}[k]): v for k, v in sorted(ar_hist.items())}
     R.cov['height_histogram'] = dict(sorted(h_hist.items()))
     R.cov['distinct_printed_forms'] = {'%s/%s' % k: len(v) for k, v in printed.items()}
     n_ctl = max(1, sum(compact.values()))
@@ -343,6 +374,10 @@ def _short(x, n=700):
 
 def replay(R, data):
     d = data['data']
+    if d.get('stream') == 'verytall':
+        return X.replay_tall(R, d)
+    if d.get('stream') == 'edit':
+        return X.replay_edit(R, d)
     if 'formula' not in d and 'formula_flat' not in d:
         print('no formula in this replay (proof gate / symbol tables):', json.dumps(d, default=str)[:2000])
         if PG.symbol_table_diffs():
